@@ -74,6 +74,20 @@ func (i *insertOnUpdateExecutor) ExecContext(ctx context.Context, f exec.Callbac
 		return nil, err
 	}
 
+	if len(beforeImage.Rows) > 0 && len(afterImage.Rows) > len(beforeImage.Rows) {
+		// some rows of the batch existed and some were inserted: the undo of an UPDATE would put the old
+		// rows back and leave the new ones in the table, so the new rows get an INSERT item of their own
+		insertedImage := i.splitInsertedRows(beforeImage, afterImage)
+		beforeImage.SQLType = types.SQLTypeUpdate
+		afterImage.SQLType = types.SQLTypeUpdate
+		i.execContext.TxCtx.RoundImages.AppendBeofreImage(beforeImage)
+		i.execContext.TxCtx.RoundImages.AppendAfterImage(afterImage)
+		emptyImage := &types.RecordImage{TableName: afterImage.TableName, TableMeta: afterImage.TableMeta, SQLType: types.SQLTypeInsert}
+		i.execContext.TxCtx.RoundImages.AppendBeofreImage(emptyImage)
+		i.execContext.TxCtx.RoundImages.AppendAfterImage(insertedImage)
+		return res, nil
+	}
+
 	if len(beforeImage.Rows) > 0 {
 		beforeImage.SQLType = types.SQLTypeUpdate
 		afterImage.SQLType = types.SQLTypeUpdate
@@ -85,6 +99,39 @@ func (i *insertOnUpdateExecutor) ExecContext(ctx context.Context, f exec.Callbac
 	i.execContext.TxCtx.RoundImages.AppendBeofreImage(beforeImage)
 	i.execContext.TxCtx.RoundImages.AppendAfterImage(afterImage)
 	return res, nil
+}
+
+// splitInsertedRows moves the rows of afterImage whose primary key is not in beforeImage into an image
+// of their own (SQL type INSERT) and leaves the others in afterImage.
+func (i *insertOnUpdateExecutor) splitInsertedRows(beforeImage, afterImage *types.RecordImage) *types.RecordImage {
+	pkText := func(row types.RowImage) string {
+		var sb strings.Builder
+		for _, col := range row.Columns {
+			if col.KeyType == types.IndexTypePrimaryKey {
+				sb.WriteString(fmt.Sprintf("%s=%v;", strings.ToLower(col.ColumnName), col.Value))
+			}
+		}
+		return sb.String()
+	}
+	existed := make(map[string]struct{}, len(beforeImage.Rows))
+	for _, row := range beforeImage.Rows {
+		existed[pkText(row)] = struct{}{}
+	}
+	insertedImage := &types.RecordImage{
+		TableName: afterImage.TableName,
+		TableMeta: afterImage.TableMeta,
+		SQLType:   types.SQLTypeInsert,
+	}
+	updatedRows := make([]types.RowImage, 0, len(beforeImage.Rows))
+	for _, row := range afterImage.Rows {
+		if _, ok := existed[pkText(row)]; ok {
+			updatedRows = append(updatedRows, row)
+		} else {
+			insertedImage.Rows = append(insertedImage.Rows, row)
+		}
+	}
+	afterImage.Rows = updatedRows
+	return insertedImage
 }
 
 // beforeImage build before image
